@@ -1,6 +1,6 @@
 /-
 C09, closed forms that need special functions.  Mathlib has neither erf nor the exponential integral E1, so the
-function is a parameter and its defining derivative an explicit hypothesis (never an axiom):
+function is a parameter and its defining derivative an explicit hypothesis (never a global assumption):
   `herf : ∀ x, HasDerivAt erf (2 / √π · exp (−x²)) x`,   `hE1 : ∀ x > 0, HasDerivAt E1 (−exp (−x) / x) x`.
 The formulas are those of merton.py:61-114 and variancegamma.py:123-146 on one side of zero.
 -/
